@@ -592,6 +592,38 @@ fn cli_walk(rep: &Report, n: usize, seed: u64) {
     });
 }
 
+/// very many rejected / unanswerable lines at ONE prompt (nothing advances in between), then ordinary commands: the
+/// prompt loop must neither run out of stack nor slow down
+fn prompt_scale(rep: &Report, thorough: bool) {
+    let sizes: Vec<usize> = if thorough { vec![1_000, 30_000, 100_000, 400_000] } else { vec![1_000, 30_000, 100_000] };
+    par_for(sizes.len() * 2, 1, |j| {
+        let n = sizes[j / 2];
+        let kinds: [&str; 6] = ["bogus", "", "print mem 1048575 : 5", "x y z", "print", "nextt"];
+        let mut stdin = String::with_capacity(n * 8);
+        for k in 0..n {
+            stdin.push_str(if j % 2 == 0 { kinds[0] } else { kinds[k % kinds.len()] });
+            stdin.push('\n');
+        }
+        stdin.push_str("print flags\nn\nn\nn\nn\n");
+        let src = "start:\nint 3\nmov ax,1\nint 3\nmov bx,2\n";
+        let out = run_cli(src.as_bytes(), &CliOpts { stdin: stdin.as_bytes(), env: vec![("VERIF_NOMEM", "1")], timeout_s: 120.0, cap: 128 << 20, ..Default::default() });
+        judge_cli(rep, &out, "prompt-input", "many-rejected-lines-at-one-prompt", src.as_bytes(), format!("<{} rejected lines, then print flags and n>", n).as_bytes(), false, Some(format!("ps{}", j)));
+        // ... and the session must go on afterwards: the program reaches its end
+        if out.clean_exit() && !out.timed_out {
+            let p = parse_records(&out.stdout);
+            if p.recs.last().map(|r| r.line.as_str()) != Some("hlt") {
+                rep.fail(Failure {
+                    sig: "cli:prompt-input:session-does-not-continue".into(),
+                    what: "C15: after many rejected lines at a prompt the session does not continue normally".into(),
+                    witness: format!("{{\"kind\": \"cli\", \"rejected_lines\": {}, \"status\": {}, \"last_record\": {}}}", n, json_str(&out.status_str()), json_str(&p.recs.last().map(|r| r.line.clone()).unwrap_or_default())),
+                    core_item: Some(format!("ps-cont{}", j)),
+                });
+            }
+        }
+    });
+    rep.count("prompt sessions with thousands of rejected lines at one prompt", (sizes.len() * 2) as u64);
+}
+
 fn prompt_line(rng: &mut Rng) -> Vec<u8> {
     match rng.below(12) {
         0 => token_soup(rng).replace('\n', " ").into_bytes(),
@@ -805,6 +837,7 @@ pub fn run(rep: &Report) {
     cli_files(rep, if t { 60_000 } else { 1500 }, rep.seed);
     cli_prompt(rep, if t { 20_000 } else { 500 }, rep.seed);
     cli_walk(rep, if t { 20_000 } else { 300 }, rep.seed);
+    prompt_scale(rep, t);
     size_families(rep, t);
     for id in [0usize, 7, 11, 13, 24, 104] {
         let (target, family, text) = gen_case(rep.seed, id);
